@@ -4,7 +4,7 @@ import arrayprop, directed
 
 def run(tier):
     return arrayprop.standard_run(
-        "C19", tier, profiles=["c19", "c19", "copy"], nquick=36, nthorough=360, steps=(26, 36), sim=False,
+        "C19", tier, profiles=["c19", "inodes", "c19", "copy", "inodes"], nquick=36, nthorough=360, steps=(26, 36), sim=False,
         directed_jobs=lambda s0: [(s0 + 1, dict(nd=2, np=1, copies=2), "directed-decoy-prehash", 0, directed.decoy_prehash),
                                   (s0 + 2, dict(nd=2, np=2, copies=2), "directed-import-past", 0, directed.import_past_content),
                                   (s0 + 3, dict(nd=2, np=2, copies=2), "directed-import-past", 0, directed.import_past_content)],
